@@ -359,6 +359,16 @@ def script_compression(ctx, P):
         ok = sub_line < min(ign[0][4], raw[0][4])
     ctx.ob("ScriptCompression/reader-plain", "SYMMETRY", "for other size words the reader subtracts the offset and then consumes exactly that many bytes: it either skips them "
            "(oversized script) or resizes the script to that length and reads it", ok, r0.where, {"ops": [(o[1], show(o[2]), F.fshow(o[3])) for o in R]})
+    # ---- the oversize cut-off admits every script up to and including MAX_SCRIPT_SIZE
+    if len(ign) == 1 and len(raw) == 1:
+        maxs = P.const("MAX_SCRIPT_SIZE")
+        within = F.atom("%s < %d" % (n, maxs + 1))          # canonical form of  nSize <= MAX_SCRIPT_SIZE
+        c1 = F.counterexample(ign[0][3], F.mk_not(within))
+        c2 = F.counterexample(F.mk_and([F.mk_not(unstale(SPECIAL)), within]), unstale(raw[0][3]))
+        ok = c1 is None and c2 is None
+        ctx.ob("ScriptCompression/oversize-cutoff", "LADDER", "the reader replaces a stored script by OP_RETURN (skipping its bytes) only if its length exceeds MAX_SCRIPT_SIZE "
+               "(%d): every non-special script of length <= MAX_SCRIPT_SIZE - still spendable - is read back in full" % maxs, ok, "%s:%s" % (r0.file, ign[0][4]),
+               None if ok else {"skip_condition": F.fshow(ign[0][3]), "read_condition": F.fshow(raw[0][3]), "MAX_SCRIPT_SIZE": maxs, "counterexample": c1 or c2})
     # ---- tables
     cs = ctx.used(P.fn("CompressScript"))
     out = cs.params[1]["n"]
